@@ -8,9 +8,13 @@ HIDDEN = [".git", ".hidden", ".venv", ".cache", ".x"]
 BUILTIN_EXCLUDED = ["tests", "test", "build", "node_modules", "venv", "dist", "_build", "buck-out", "__pypackages__"]
 ORDINARY = ["src", "lib", "app", "pkg", "docs", "a", "b", "core", "util", "tests2", "testing", "builder", "my.dir", "sp ace", "Vénv"]
 SUPPORTED_FILES = ["main.py", "util.py", "app.js", "index.ts", "prog.c", "prog.cpp", "Prog.cs", "Prog.java", "head.h", "view.jsx",
-                   "mod.mjs", "x.cc", "y.hpp", "z.cxx", "setup.py", "a.b.py", "test.py", "build.js", "dist.c", "UPPER.PY", "t.pyw"]
+                   "mod.mjs", "x.cc", "y.hpp", "z.cxx", "setup.py", "a.b.py", "test.py", "build.js", "dist.c", "UPPER.PY", "t.pyw",
+                   # every file-name pattern Pygments knows for the seven lexers, incl. whole-name patterns without an extension
+                   "SConstruct", "SConscript", "BUCK", "BUILD", "BUILD.bazel", "WORKSPACE", "defs.bzl", "stub.pyi", "x.jy", "m.sage", "s.sc",
+                   "svc.tac", "e.pye", "x.idc", "icon.xbm", "icon.xpm", "y.c++", "y.h++", "y.hh", "y.hxx", "Y.C", "Y.H", "y.cp", "Y.CPP",
+                   "t.tpp", "m.cppm", "m.ixx", "m.mxx", "i.ipp", "m.jsm", "m.cjs", "other.bazel", "BUILD.txt", "build", "Build"]
 UNSUPPORTED_FILES = ["README.md", "notes.txt", "data.json", "conf.yml", "lib.rb", "main.go", "style.css", "page.html", "run.sh", "x.py.bak", "a.rs"]
-NOEXT_FILES = ["Makefile", "LICENSE", "README", "py", "c", "Dockerfile"]
+NOEXT_FILES = ["Makefile", "LICENSE", "README", "py", "c", "Dockerfile", "Rakefile", "Gemfile", "PKGBUILD", "NOTES", "makefile", "control", "bashrc"]
 HIDDEN_FILES = [".env.py", ".hidden.js", ".gitignore2", ".a.c"]
 CONTENTS = {
     ".py": b"def f(a):\n    return a\n\n\ndef g():\n    x = 1\n    return x\n",
@@ -23,7 +27,8 @@ CONTENTS = {
 def content_for(name, rng):
     ext = os.path.splitext(name)[1].lower()
     base = CONTENTS.get(ext, CONTENTS[".c"] if ext in (".h", ".cc", ".hpp", ".cxx") else CONTENTS[".js"] if ext in (".jsx", ".mjs") else
-                        CONTENTS[".py"] if ext == ".pyw" else b"just text\n")
+                        CONTENTS[".py"] if ext == ".pyw" or name in ("BUILD", "BUCK", "WORKSPACE", "SConstruct", "SConscript", "README", "NOTES") else
+                        b"just text\n")
     return base + (b"// v%d\n" % rng.randint(0, 9) if ext not in (".py", ".pyw", ".md", ".txt") else b"# v%d\n" % rng.randint(0, 9))
 
 
